@@ -12,7 +12,7 @@ LEVEL_TEXT = {
  "C04": "Bounded symbolic execution (rs2smt + z3) of the real log-file code with a symbolic crash point over the journal of its file mutations (also inside an operation, also during the creation of a new file) and of the raft index file: the log reopens and shows the state of the last acknowledged operation or of the one in flight; counterexamples and sampled paths are executed on the real LogInnerManager. Across files: the snapshot catalogue under a process death behind every prefix of {remove outdated snapshot files, rewrite the catalogue} (validated on the real managers with crash images) and the write order of a log compaction (records, flush, catalogue, log pointer) and of a snapshot installation (the catalogue names the snapshot before the log is cut).",
  "C05": "Bounded symbolic execution (rs2smt + z3) of the real index-file code (init, write_index, write_last_applied_log, message code, FileMessageReader) over a modelled file layer: save hard state then restart, symbolic 64-bit values; every sequence of 2-3 requests to the RaftIndexManager actor (hard state, membership, addresses, catalogue, last-applied) observed in-process and after restart; plus Kani for the id codec at all u64.",
  "C07": "Translation validation of three programs (leader apply, follower batch, start-up replay): each request variant is symbolically evaluated through the three real function bodies and the emitted (actor, message) terms are compared by z3; plus the last-applied bookkeeping of the batch path vs the single path, plus the config actor itself on a leader and a follower replica after the same committed requests.",
- "C08": "Bounded symbolic execution (rs2smt + z3) of the receiving side of a snapshot installation in one process: FileStore::finalize_snapshot_installation and the ApplySnapshot handler of StateApplyManager with recording collaborators; oracle over the emissions (catalogue entry, membership, log split-off and pointer entry, every snapshot record delivered to the state machine followed by load-complete); counterexamples replayed on a real node through RaftStorage::{create_snapshot, finalize_snapshot_installation}. Plus the file a snapshot stream is received into under resent chunks and an interrupted earlier transfer (replayed on a real node). Narrow: the sending side and the raft protocol around the installation are outside. One known finding (S08-a).",
+ "C08": "Bounded symbolic execution (rs2smt + z3) of the receiving side of a snapshot installation in one process: FileStore::finalize_snapshot_installation and the ApplySnapshot handler of StateApplyManager with recording collaborators; oracle over the emissions (catalogue entry, membership, log split-off and pointer entry, every snapshot record delivered to the state machine followed by load-complete); counterexamples replayed on a real node through RaftStorage::{create_snapshot, finalize_snapshot_installation}. Plus the file a snapshot stream is received into under resent chunks and an interrupted earlier transfer (replayed on a real node), and the content of the snapshot for the data the property names: configuration, namespace and user records written by the leader's components and loaded by a fresh follower component. Narrow: the sending side and the raft protocol around the installation are outside. One known finding (S08-a).",
  "C09": "Bounded symbolic execution of the real config-store source (set_config, del_config, GET, index, history; tmp value and full-value import; listings under group / dataId filters on every page; the listing parameters of the OpenAPI accurate / blur search and of the console with arbitrary group / dataId strings) over every history of 3-4 operations with arbitrary string contents, decided by z3; counterexamples and sampled histories run on a real ConfigActor with the real md5.",
  "C10": "Bounded symbolic execution of the real long-poll listener and gRPC subscriber source over every interleaving of 3-4 actor messages (listen, publish, remove, tick, tmp value of a forwarded publish, subscribe / unsubscribe / disconnect) with symbolic md5s / contents; oracle in state form: no registered listener holds an md5 that differs from the stored one.",
  "C11": "Bounded symbolic execution of the real naming Service source over every history of 3 operations on two addresses with symbolic instance flags (counters, persistent set and instance map agree after every step) and of the NamingActor registration paths (gRPC / HTTP register, deregister, connection close): the per-connection reverse map matches the stored owners after every step; the namespace / group index and the clean-up of empty services over three services (a service with an instance is never dropped; index == map); counterexamples and sampled paths run on the real Service / NamingActor.",
